@@ -299,6 +299,122 @@ Definition load_config (w : world) : config :=
 Definition resolve_world (w : world) (o : ovr) : option resolved :=
   resolve (load_config w) (w_env w) o.
 
+(* ---- the JSON stage in front of the typed configuration (config.rs load_effective_config) ------------------------------
+   The code merges the files as JSON VALUES (merge_json_value: two objects merge key by key, anything else is REPLACED by the
+   overlay) and deserialises the merged value into the typed schema at the end.  A `doc` is a configuration file as far as
+   the secret-bearing positions go, WITH THEIR SHAPES: every position that the schema types as a map / string may hold
+   a scalar of the wrong type (serde's error QUOTES it: `invalid type: string "..", expected a map`, `invalid type: integer
+   `..`, expected a string`) or another wrong shape (array, bool, object: the error quotes nothing).  The other fields
+   (model, roles.primary, the openresponses flags) are kept well-typed. *)
+Inductive hval := HStr (v : str) | HBadScalar (q : str) | HBad.
+Inductive hdrs := HMap (m : list (str * hval)) | HScalar (q : str) | HShape.
+(* api_key: a string or {"env": NAME} (extra keys are ignored by the untagged enum) | an object without `env` | number, array, bool *)
+Inductive kval := KV (k : keysrc) | KBadObj | KBad.
+Inductive pval := PObj (e : option str) (k : option kval) (h : option hdrs) | PScalar (q : str) | PBad.
+Inductive provs := PMap (m : list (str * pval)) | PsScalar (q : str) | PsBad.
+Inductive doc :=
+| DObj (ps : option provs) (model primary : option str) (stateless parallel : option bool) (followup : option str)
+| DScalar (q : str)
+| DBad.
+
+Definition merge_opt {A} (f : A -> A -> A) (old new : option A) : option A :=
+  match old, new with
+  | Some a, Some b => Some (f a b)
+  | _, Some b => Some b
+  | a, None => a
+  end.
+(* merge_json_value at each position: objects merge, everything else is replaced by the overlay *)
+Definition merge_hdrs (old new : hdrs) : hdrs :=
+  match old, new with
+  | HMap a, HMap b => HMap (fold_left (fun hs kv => upsert (fst kv) (fun _ => snd kv) hs) b a)
+  | _, _ => new
+  end.
+Definition merge_kval (old new : kval) : kval :=
+  match old, new with
+  | KV (KEnvRef n), KBadObj => KV (KEnvRef n)        (* two objects: the overlay adds keys, `env` stays *)
+  | _, _ => new
+  end.
+Definition merge_pval (old new : pval) : pval :=
+  match old, new with
+  | PObj e k h, PObj e' k' h' => PObj (over e' e) (merge_opt merge_kval k k') (merge_opt merge_hdrs h h')
+  | _, _ => new
+  end.
+Definition merge_provs (old new : provs) : provs :=
+  match old, new with
+  | PMap a, PMap b =>
+      PMap (fold_left (fun m kp => upsert (fst kp) (fun o => match o with Some x => merge_pval x (snd kp) | None => snd kp end) m) b a)
+  | _, _ => new
+  end.
+Definition merge_doc (old new : doc) : doc :=
+  match old, new with
+  | DObj ps m p s pa f, DObj ps' m' p' s' pa' f' =>
+      DObj (merge_opt merge_provs ps ps') (over m' m) (over p' p) (over s' s) (over pa' pa) (over f' f)
+  | _, _ => new
+  end.
+Definition empty_doc : doc := DObj None None None None None None.
+Definition merge_docs (ds : list doc) : doc := fold_left merge_doc ds empty_doc.
+
+(* serde_json::from_value::<RipConfig>: None = the merged value fits; Some q = it does not, and q is the scalar the error
+   quotes ([] when it quotes none).  Map keys are visited in key order (BTreeMap); inside a provider `api_key` comes
+   before `headers`; the FIRST error is the one reported *)
+Fixpoint first_some {A} (l : list (option A)) : option A :=
+  match l with [] => None | Some a :: _ => Some a | None :: r => first_some r end.
+Definition hval_error (v : hval) : option str :=
+  match v with HStr _ => None | HBadScalar q => Some q | HBad => Some [] end.
+Definition hdrs_error (h : hdrs) : option str :=
+  match h with
+  | HMap m => first_some (map (fun kv => hval_error (snd kv)) m)
+  | HScalar q => Some q
+  | HShape => Some []
+  end.
+Definition pval_error (p : pval) : option str :=
+  match p with
+  | PScalar q => Some q
+  | PBad => Some []
+  | PObj _ k h =>
+      match k with
+      | Some KBadObj | Some KBad => Some []
+      | _ => match h with Some hs => hdrs_error hs | None => None end
+      end
+  end.
+Definition provs_error (ps : provs) : option str :=
+  match ps with
+  | PMap m => first_some (map (fun kp => pval_error (snd kp)) m)
+  | PsScalar q => Some q
+  | PsBad => Some []
+  end.
+Definition doc_error (d : doc) : option str :=
+  match d with
+  | DObj (Some ps) _ _ _ _ _ => provs_error ps
+  | DObj None _ _ _ _ _ => None
+  | DScalar q => Some q
+  | DBad => Some []
+  end.
+
+(* the typed view of a document (meaningful when it fits) *)
+Definition to_headers (h : option hdrs) : list (str * str) :=
+  match h with
+  | Some (HMap m) => map (fun kv => (fst kv, match snd kv with HStr v => v | _ => [] end)) m
+  | _ => []
+  end.
+Definition to_patch (p : pval) : patch :=
+  match p with
+  | PObj e k h => mkPatch e (match k with Some (KV ks) => Some ks | _ => None end) (to_headers h)
+  | _ => empty_patch
+  end.
+Definition to_layer (d : doc) : layer :=
+  match d with
+  | DObj ps m p s pa f =>
+      mkLayer (match ps with Some (PMap l) => map (fun kp => (fst kp, to_patch (snd kp))) l | _ => [] end) m p s pa f
+  | _ => mkLayer [] None None None None None
+  end.
+
+(* a world given by its configuration FILES: the typed world the rest of the model works with *)
+Record jworld := mkJWorld { jw_docs : list doc; jw_env : env; jw_ovr : ovr }.
+Definition world_of (j : jworld) : world :=
+  let merged := merge_docs (jw_docs j) in
+  mkWorld [to_layer merged] (jw_env j) (jw_ovr j) (doc_error merged).
+
 (* ---- the provider configuration a run works with (provider_openresponses.rs:6-66) --------- *)
 Record orcfg := mkOr {
   oc_endpoint : str;
@@ -703,6 +819,36 @@ Definition low_env (e : env) : env :=
   map (fun kv => (fst kv, if is_public_env (fst kv) then snd kv else mask (snd kv))) e.
 Definition low_world (w : world) : world :=
   mkWorld (map low_layer (w_layers w)) (low_env (w_env w)) (w_ovr w) (option_map mask (w_misfit w)).
+
+(* the low view of configuration files: every scalar at a secret-bearing position is erased, WHATEVER its shape *)
+Definition low_hval (v : hval) : hval :=
+  match v with HStr _ => HStr [] | HBadScalar q => HBadScalar (mask q) | HBad => HBad end.
+Definition low_hdrs (h : hdrs) : hdrs :=
+  match h with
+  | HMap m => HMap (map (fun kv => (fst kv, low_hval (snd kv))) m)
+  | HScalar q => HScalar (mask q)
+  | HShape => HShape
+  end.
+Definition low_kval (k : kval) : kval := match k with KV ks => KV (low_keysrc ks) | o => o end.
+Definition low_pval (p : pval) : pval :=
+  match p with
+  | PObj e k h => PObj e (option_map low_kval k) (option_map low_hdrs h)
+  | PScalar q => PScalar (mask q)
+  | PBad => PBad
+  end.
+Definition low_provs (ps : provs) : provs :=
+  match ps with
+  | PMap m => PMap (map (fun kp => (fst kp, low_pval (snd kp))) m)
+  | PsScalar q => PsScalar (mask q)
+  | PsBad => PsBad
+  end.
+Definition low_doc (d : doc) : doc :=
+  match d with
+  | DObj ps m p s pa f => DObj (option_map low_provs ps) m p s pa f
+  | DScalar q => DScalar (mask q)
+  | DBad => DBad
+  end.
+Definition low_jworld (j : jworld) : jworld := mkJWorld (map low_doc (jw_docs j)) (low_env (jw_env j)) (jw_ovr j).
 
 (* tools whose output does not depend on secret values (the hypothesis under which noninterference holds) *)
 Definition tools_blind (ws : wscript) : Prop := forall w c, ws_tools ws w c = ws_tools ws (low_world w) c.
